@@ -275,6 +275,28 @@ func (w *world) waitAll(pred func(*node) bool) int {
 	}
 }
 
+// waitSpread waits for an update created on one node to be held by all.  Gossip is a randomised protocol over UDP, and a
+// member that is briefly suspected (a starved machine) is skipped: an update that DID leave its origin (some other node holds
+// it) but has not reached everybody within `settle` is given the time of one periodic full-state exchange, which is
+// what repairs such a gap by design.  An update that no other node holds after `settle` never left the origin's queue:
+// that is reported at once.
+func (w *world) waitSpread(pred func(*node) bool) int {
+	c := w.waitAll(pred)
+	if all := len(w.live()); c < all && c > 1 {
+		deadline := time.Now().Add(cluster.DefaultPushPullInterval + 15*time.Second)
+		for c < all && time.Now().Before(deadline) {
+			time.Sleep(100 * time.Millisecond)
+			c = 0
+			for _, n := range w.live() {
+				if pred(n) {
+					c++
+				}
+			}
+		}
+	}
+	return c
+}
+
 func (w *world) exec(line string) string {
 	t := strings.Fields(line)
 	switch t[0] {
@@ -294,7 +316,7 @@ func (w *world) exec(line string) string {
 			return "error:" + hx.Hex(err.Error())
 		}
 		w.sils = append(w.sils, s.Id)
-		c := w.waitAll(func(n *node) bool { return n.hasSil(s.Id) })
+		c := w.waitSpread(func(n *node) bool { return n.hasSil(s.Id) })
 		return fmt.Sprintf("seen=%d/%d", c, len(w.live()))
 	case "nfl":
 		i, _ := strconv.Atoi(t[1])
@@ -311,7 +333,7 @@ func (w *world) exec(line string) string {
 			return "error:" + hx.Hex(err.Error())
 		}
 		w.gkeys = append(w.gkeys, gk)
-		c := w.waitAll(func(n *node) bool { return n.hasLog(gk) })
+		c := w.waitSpread(func(n *node) bool { return n.hasLog(gk) })
 		return fmt.Sprintf("seen=%d/%d", c, len(w.live()))
 	case "fact":
 		return appSetupOrder()
@@ -383,7 +405,7 @@ func (w *world) exec(line string) string {
 		}
 		w.sils = append(w.sils, ids...)
 		w.gkeys = append(w.gkeys, gks...)
-		c := w.waitAll(func(n *node) bool {
+		c := w.waitSpread(func(n *node) bool {
 			for _, id := range ids {
 				if !n.hasSil(id) {
 					return false
